@@ -104,6 +104,19 @@ def matmulReducescatter (mm : L → X → M) (z : X) (lhs : Nat → Nat → L) (
 
 end schedules
 
+/-! ### the operands of the two collectives as blocks of unsharded matrices
+
+`lax.dynamic_slice_in_dim(lhs, chunk_index * chunk_size, chunk_size, axis)` on a 2-D coefficient array
+(a list of rows): along the columns (`split_axis = 1`, the contracted axis of the all-gather matmul) and
+along the rows (`scatter_axis = 0`, the output axis of the reduce-scatter matmul).  The input shards of
+`rhs` (`shard_map` in-spec along its leading axis) are `splitEvery k rhs`, i.e. `rowChunk rhs s k`. -/
+
+/-- rows `c·k … c·k + k − 1` of a matrix -/
+def rowChunk {α : Type} (a : List α) (c k : Nat) : List α := (a.drop (c * k)).take k
+
+/-- columns `c·k … c·k + k − 1` of a matrix -/
+def colChunk {α : Type} (a : List (List α)) (c k : Nat) : List (List α) := a.map fun row => rowChunk row c k
+
 /-! ### the schedules with symbolic chunk ids
 
 `lhs a c` is the symbol `(a, c)`, the input shard of device `s` is the symbol `s`, a product is the
@@ -202,7 +215,12 @@ end cumsum
 /-! ## shapes and padding -/
 
 /-- `_round_to_multiple(x, multiple) = multiple * math.ceil(x / multiple)`;
- `none` = `ZeroDivisionError` -/
+ `none` = `ZeroDivisionError`.
+ SIDE CONDITION: Python evaluates `x / multiple` in binary64 and `math.ceil` on that float; the exact
+ integer ceiling used here agrees with it for `x < 2^53` (`Dino.C07.roundToMultiple_float_agrees`:
+ any quotient that is exact when `multiple ∣ x` and has relative error `≤ 2^-53` otherwise has the same
+ ceiling).  Array shapes are far below that bound; beyond it the code's result can differ
+ (`_round_to_multiple(2**53 + 1, 1) = 2**53`). -/
 def roundToMultiple (x multiple : Nat) : Option Nat :=
   if multiple = 0 then none else some (multiple * ((x + multiple - 1) / multiple))
 
@@ -283,6 +301,17 @@ def frequencyOffset (shardRows a : Nat) : Nat := shardRows / 2 * a
  rows is differentiated on its own with its frequency offset (no communication) -/
 def shardedDerivative (shards : List (List (List K))) (width : Nat) : List (List (List K)) :=
   shards.zipIdx.map fun ua => Fourier.zeroImagDerivative ua.1 width (frequencyOffset ua.1.length ua.2)
+
+/-- `fourier.real_basis_derivative_with_zero_imag(u, axis=-2, frequency_offset)` with its validation:
+ `if u.shape[axis] % 2: raise ValueError` (`none`) -/
+def zeroImagDerivativeChecked (x : List (List K)) (width offset : Nat) : Option (List (List K)) :=
+  if x.length % 2 = 1 then none else some (Fourier.zeroImagDerivative x width offset)
+
+/-- `_fourier_derivative_for_real_basis_with_zero_imag` under a mesh with the validation of the callee:
+ a shard with an odd number of rows makes the whole call raise -/
+def shardedDerivativeChecked (shards : List (List (List K))) (width : Nat) :
+    Option (List (List (List K))) :=
+  shards.zipIdx.mapM fun ua => zeroImagDerivativeChecked ua.1 width (frequencyOffset ua.1.length ua.2)
 
 /-- the same with `size` instead of `size // 2` (negative witness for the offset) -/
 def shardedDerivativeWrongOffset (shards : List (List (List K))) (width : Nat) :
